@@ -122,28 +122,47 @@ STABLE_TAGS = {"new", "hremove", "alloc", "iter", "iterproj", "param", "const", 
                "self", "mod", "builtin", "free", "closure", "undef", "opaque"}
 
 
-def reads_field(t: Term, fields) -> bool:
-    """Does the value of term t depend on a read of one of the attribute names in `fields`?"""
+def owner_kind(t: Term) -> Optional[str]:
+    """Coarse class of the object a path denotes: 'heap', 'node', 'graph' or None (unknown)."""
+    while t[0] == "old":
+        t = t[1]
+    if t[0] == "new":
+        return {"Heap": "heap", "Node": "node", "Subgraph": "graph", "KNNSubgraph": "graph"}.get(t[1])
+    if t[0] == "idx" and t[1][0] == "attr" and t[1][2] == "nodes":
+        return "node"
+    if t[0] in ("iter", "iterproj") and t[1][0] == "attr" and t[1][2] == "nodes":
+        return "node"
+    if t[0] == "attr" and t[2] == "subgraph":
+        return "graph"
+    return None
+
+
+def reads_field(t: Term, fields, owner: Optional[str] = None) -> bool:
+    """Does the value of term t depend on a read of one of the attribute names in `fields`?
+    owner: class of the object that was written; reads on objects of another known class do not count
+    (Heap.cost and Node.cost are different fields)."""
     tag = t[0]
     if tag in STABLE_TAGS:
         return False
     if tag == "attr":
         if t[2] in fields:
-            return True
-        return reads_field(t[1], fields)
+            ok = owner_kind(t[1])
+            if owner is None or ok is None or ok == owner:
+                return True
+        return reads_field(t[1], fields, owner)
     if tag == "call":
         f = t[1]
-        if f[0] == "attr" and reads_field(f[1], fields):
+        if f[0] == "attr" and reads_field(f[1], fields, owner):
             return True
-        return any(reads_field(a, fields) for a in t[2]) or any(reads_field(v, fields) for _, v in t[3])
+        return any(reads_field(a, fields, owner) for a in t[2]) or any(reads_field(v, fields, owner) for _, v in t[3])
     for x in t[1:]:
         if isinstance(x, tuple):
             if x and isinstance(x[0], str) and x[0] in TAGS:
-                if reads_field(x, fields):
+                if reads_field(x, fields, owner):
                     return True
             else:
                 for y in x:
-                    if isinstance(y, tuple) and y and isinstance(y[0], str) and y[0] in TAGS and reads_field(y, fields):
+                    if isinstance(y, tuple) and y and isinstance(y[0], str) and y[0] in TAGS and reads_field(y, fields, owner):
                         return True
     return False
 
@@ -413,18 +432,43 @@ def read_summaries(repo: Repo) -> Dict[str, set]:
 
 def root_object(t: Term) -> Term:
     """The object a path expression starts from (self, a fresh object, a parameter, ...)."""
-    while t[0] in ("attr", "idx", "old"):
+    while t[0] in ("attr", "idx", "old", "iter", "iterproj"):
         t = t[1]
+        if t[0] == "call" and t[1] in (("builtin", "enumerate"), ("builtin", "zip"), ("builtin", "reversed")) and t[2]:
+            t = t[2][0]
     return t
 
 
-def mutated_fields(stmts: List[ast.stmt], repo: Repo = None):
-    """Syntactic over-approximation of the attribute names a block may write."""
-    out, calls = _direct_writes(stmts)
-    if repo is not None:
-        summ = write_summaries(repo)
-        for c in calls:
-            out |= summ.get(c, set())
+def mutated_fields(stmts: List[ast.stmt], repo: Repo = None) -> Dict[str, set]:
+    """Syntactic over-approximation of the attribute names a block may write: field -> how
+    ('store', or 'call:<method>')."""
+    out: Dict[str, set] = {}
+    summ = write_summaries(repo) if repo is not None else {}
+    for s in stmts:
+        for n in ast.walk(s):
+            tgts = []
+            if isinstance(n, ast.Assign):
+                tgts = n.targets
+            elif isinstance(n, (ast.AugAssign, ast.AnnAssign)):
+                tgts = [n.target]
+            elif isinstance(n, ast.For):
+                tgts = [n.target]
+            for t in tgts:
+                for e in ([t] if not isinstance(t, (ast.Tuple, ast.List)) else t.elts):
+                    while isinstance(e, ast.Subscript):
+                        e = e.value
+                    if isinstance(e, ast.Attribute):
+                        out.setdefault(e.attr, set()).add("store")
+            name = None
+            if isinstance(n, ast.Call) and isinstance(n.func, ast.Attribute):
+                name = n.func.attr
+                if name in CONTAINER_MUTATORS and isinstance(n.func.value, ast.Attribute):
+                    out.setdefault(n.func.value.attr, set()).add("call:" + name)
+            elif isinstance(n, ast.Call) and isinstance(n.func, ast.Name):
+                name = n.func.id
+            if name is not None:
+                for f in summ.get(name, set()):
+                    out.setdefault(f, set()).add("call:" + name)
     return out
 
 
@@ -461,6 +505,7 @@ class Walker:
         self.guard_src: Dict[Term, Tuple[int, str, FunctionInfo]] = {}
         self.envstack: List[Dict[str, Term]] = []
         self._old = 0
+        self.old_cause: Dict[int, set] = {}
         self.run()
 
     # -- driver --------------------------------------------------------------
@@ -479,11 +524,16 @@ class Walker:
         self.final_env = env
 
     # -- staleness of copied reads ----------------------------------------------
-    def invalidate(self, fields, env: Dict[str, Term] = None) -> None:
+    def invalidate(self, fields, env: Dict[str, Term] = None, elements_only: bool = False,
+                   cause: str = "store", owner: Optional[str] = None) -> None:
         """A local that holds a copy of a read of field F stops being equal to a fresh read
-        of F once F may have been written: wrap it as ('old', term, n)."""
+        of F once F may have been written: wrap it as ('old', term, n).
+        elements_only: the write went INTO the container held by F (element store, append, ...);
+        a local that merely references the container (`nodes = self.p`) stays valid."""
         if not fields:
             return
+        if not isinstance(fields, dict):
+            fields = {f: {cause} for f in fields}
         envs = list(self.envstack)
         if env is not None and all(env is not e for e in envs):
             envs.append(env)
@@ -491,12 +541,28 @@ class Walker:
             for name, t in list(e.items()):
                 if t[0] == "old":
                     continue
-                if reads_field(t, fields):
+                if elements_only and t[0] == "attr" and t[2] in fields and not reads_field(t[1], fields, owner):
+                    continue
+                if reads_field(t, fields, owner):
                     self._old += 1
                     e[name] = ("old", t, self._old)
+                    why = set()
+                    for f, cs in fields.items():
+                        if reads_field(t, {f}, owner):
+                            why |= set(cs)
+                    self.old_cause[self._old] = why
 
     def call_writes(self, meth: str):
         return write_summaries(self.repo).get(meth, set())
+
+    @staticmethod
+    def stored_owner(target: Term) -> Optional[str]:
+        t = target
+        while t[0] == "idx":
+            t = t[1]
+        if t[0] == "attr":
+            return owner_kind(t[1])
+        return None
 
     @staticmethod
     def stored_field(target: Term) -> Optional[str]:
@@ -566,7 +632,8 @@ class Walker:
             else:
                 tgt = self.ev(s.target, env)
                 self.emit("store", s, target=tgt, value=val, aug=op)
-                self.invalidate({self.stored_field(tgt)} - {None}, env)
+                self.invalidate({self.stored_field(tgt)} - {None}, env, elements_only=tgt[0] == "idx",
+                                owner=self.stored_owner(tgt))
             return None
         if isinstance(s, ast.If):
             return self.if_(s, env)
@@ -645,16 +712,18 @@ class Walker:
                 elif val[0] == "alloc" and val[1] == "list" and len(val[2]) == len(t.elts):
                     v = val[2][i]
                 else:
-                    v = ("proj", val, i)
+                    v = ("idx", val, ("const", i))
                 if pre[i] is not None:
                     self.emit("store", stmt, target=pre[i], value=v, name=f"tuple{i}/{len(t.elts)}")
-                    self.invalidate({self.stored_field(pre[i])} - {None}, env)
+                    self.invalidate({self.stored_field(pre[i])} - {None}, env, elements_only=pre[i][0] == "idx",
+                                    owner=self.stored_owner(pre[i]))
                 else:
                     self.assign(e, v, env, stmt)
         elif isinstance(t, (ast.Attribute, ast.Subscript)):
             tgt = self.ev(t, env)
             self.emit("store", stmt, target=tgt, value=val)
-            self.invalidate({self.stored_field(tgt)} - {None}, env)
+            self.invalidate({self.stored_field(tgt)} - {None}, env, elements_only=tgt[0] == "idx",
+                            owner=self.stored_owner(tgt))
         elif isinstance(t, ast.Starred):
             self.assign(t.value, ("star", val), env, stmt)
         else:
@@ -696,14 +765,12 @@ class Walker:
     @staticmethod
     def expand_guard(cond: Term, pol: bool) -> List[Tuple[Term, bool]]:
         """not (a or b)  ==  (not a) and (not b): a negated disjunction becomes separate guards."""
+        if cond[0] == "not":
+            return Walker.expand_guard(cond[1], not pol)
         if not pol and cond[0] == "or":
             out = []
             for x in cond[1]:
-                n = mk_not(x)
-                if n[0] == "not":
-                    out.append((x, False))
-                else:
-                    out.append((n, True))
+                out.extend(Walker.expand_guard(x, False))
             return out
         return [(cond, pol)]
 
@@ -846,7 +913,16 @@ class Walker:
                     vals.extend(t[1])
                 else:
                     vals.append(t)
-            return ("and" if isinstance(e.op, ast.And) else "or", tuple(vals))
+            kind = "and" if isinstance(e.op, ast.And) else "or"
+            neutral, absorbing = (("const", True), ("const", False)) if kind == "and" else (("const", False), ("const", True))
+            if absorbing in vals:
+                return absorbing
+            vals = [v for v in vals if v != neutral]
+            if not vals:
+                return neutral
+            if len(vals) == 1:
+                return vals[0]
+            return (kind, tuple(vals))
         if isinstance(e, ast.IfExp):
             c = self.ev(e.test, env)
             a, b = self.ev(e.body, env), self.ev(e.orelse, env)
@@ -959,20 +1035,20 @@ class Walker:
                 lid = self.loopstack[-1] if self.loopstack else 0
                 t = ("hremove", recv, lid, self._site)
                 self.emit("call", e, target=fn, value=t, name=meth, args=args, kwargs=kwargs)
-                self.invalidate(HEAP_FIELDS, env)
+                self.invalidate(HEAP_FIELDS, env, cause="call:remove", owner="heap")
                 return t
-            if rcls and rcls != "Heap":
+            if rcls:
                 fi = self.repo.method(rcls, meth)
                 if fi is not None and self.inline(fi) and len(self.fnstack) <= self.max_depth:
                     return self.inline_call(fi, recv, args, kwargs, e)
             t = ("call", fn, args, kwargs)
             self.emit("call", e, target=fn, value=t, name=meth, args=args, kwargs=kwargs)
             if rcls == "Heap" and meth in ("update", "insert"):
-                self.invalidate(HEAP_FIELDS, env)
+                self.invalidate(HEAP_FIELDS, env, cause="call:" + meth, owner="heap")
             elif meth in CONTAINER_MUTATORS and recv[0] == "attr" and rcls is None:
-                self.invalidate({recv[2]}, env)
+                self.invalidate({recv[2]}, env, elements_only=True, cause="call:" + meth)
             else:
-                self.invalidate(self.call_writes(meth), env)
+                self.invalidate(self.call_writes(meth), env, cause="call:" + meth)
             return t
         # module-level repository functions
         if fn[0] == "mod" and fn[1].startswith("opfython"):
@@ -1072,6 +1148,32 @@ def is_neg_float_max(t: Term) -> bool:
     if t[0] == "bin" and t[1] == "*" and {t[2], t[3]} == {fm, ("const", -1)}:
         return True
     return False
+
+
+def fact(g: Term, pol: bool) -> Term:
+    """The guard as a positive term: (g, False) is the canonical negation of g."""
+    return g if pol else mk_not(g)
+
+
+def facts(guards) -> Tuple[Term, ...]:
+    """Guards as positive terms, conjunctions flattened (nested `if`s and `and` are the same thing)."""
+    out = []
+
+    def add(t):
+        if t[0] == "and":
+            for x in t[1]:
+                add(x)
+        elif t != ("const", True):
+            out.append(t)
+
+    for g, p in guards:
+        add(fact(g, p))
+    return tuple(out)
+
+
+def has_guard(guards, term: Term) -> bool:
+    """Is `term` (positive form) among the guards, whatever polarity/spelling the source used?"""
+    return term in facts(guards)
 
 
 def guard_terms(ev: Event) -> List[Term]:
